@@ -216,6 +216,10 @@ func (d *muxDom) Gen(r *gen.R, tier string, emit func(string)) {
 					n := nameFor(r, rg.pat)
 					// from the registering mux, and through mounts
 					names = append(names, mergeP(mpaths[m], n))
+					if mpaths[m] != "" && k == 0 {
+						// the mux path as a string prefix that is not a token prefix: must not match
+						names = append(names, mpaths[m]+"x"+n, mpaths[m]+"-."+n, mpaths[m]+r.Pick([]string{"2", "s", "_"})+"."+n)
+					}
 					if mt, ok := mounts[rg.mux]; ok {
 						n2 := mergeP(mergeP(mt[1], mpaths[rg.mux]), n)
 						names = append(names, mergeP(mpaths[m], n2), n2)
